@@ -102,6 +102,9 @@ func compareE2E(rec *Rec, r *runner) (string, string) {
 			}
 		}
 	}
+	if r.unreached != "" {
+		return "diverged", r.unreached
+	}
 	if len(r.steps) != len(want) {
 		return "extra-steps", fmt.Sprintf("the real run has %d steps, the specification %d", len(r.steps), len(want))
 	}
